@@ -11,6 +11,7 @@ FAMILY = {
     "C09": "fam_deadline",
     "C10": "fam_rdl",
     "C20": "fam_xor",
+    "C17": "fam_netctx",
     "C18": "fam_bridge",
     "C11": "fam_udp", "C12": "fam_udp",
     "C14": "fam_delay",
